@@ -2,6 +2,7 @@ package sx
 
 import (
 	"fmt"
+	"time"
 
 	"golang.org/x/tools/go/ssa"
 )
@@ -224,11 +225,17 @@ func init() {
 			values = leaves
 		} else {
 			if v.Hi-v.Lo > 256 {
-				showDepth = 8
-				x.fail("zzvrf.Fork on a value with range [%d,%d]: %s", v.Lo, v.Hi, x.tb.Show(v))
-			}
-			for k := v.Lo; k <= v.Hi; k++ {
-				values = append(values, k)
+				// not a small range syntactically: ask the solver which values are possible on
+				// this path (at most 64 of them)
+				values = x.enumValues(s, v, 64)
+				if values == nil {
+					showDepth = 8
+					x.fail("zzvrf.Fork on a value with range [%d,%d] and more than 64 feasible values: %s", v.Lo, v.Hi, x.tb.Show(v))
+				}
+			} else {
+				for k := v.Lo; k <= v.Hi; k++ {
+					values = append(values, k)
+				}
 			}
 		}
 		dst, _ := c.Instr.(*ssa.Call)
@@ -309,4 +316,53 @@ func iteLeaves(v *Term, max int) []uint64 {
 
 func (x *Exec) posOfCaller(s *State) string {
 	return x.posOf(s)
+}
+
+// termVars collects the variables a term depends on.
+func termVars(t *Term, seen map[int]bool, out *[]*Term) {
+	if t == nil || seen[t.ID] {
+		return
+	}
+	seen[t.ID] = true
+	if t.Op == OpVar {
+		*out = append(*out, t)
+		return
+	}
+	termVars(t.A, seen, out)
+	termVars(t.B, seen, out)
+	termVars(t.C, seen, out)
+}
+
+// enumValues returns the values v can take under the path condition of s (nil if there are more
+// than max, or the solver cannot tell).
+func (x *Exec) enumValues(s *State, v *Term, max int) []uint64 {
+	if x.enum == nil {
+		sv, err := NewSolver("z3-new", x.tb)
+		if err != nil {
+			return nil
+		}
+		x.enum = sv
+	}
+	tb := x.tb
+	base := tb.True
+	for _, a := range x.Assumptions {
+		base = tb.And(base, a)
+	}
+	var vars []*Term
+	termVars(v, map[int]bool{}, &vars)
+	cond := s.G
+	var out []uint64
+	for len(out) <= max {
+		r, m, err := x.enum.Check(10*time.Second, vars, base, cond)
+		if err != nil || r == Unknown {
+			return nil
+		}
+		if r == Unsat {
+			return out
+		}
+		val := tb.Eval(v, m, map[int]uint64{})
+		out = append(out, val)
+		cond = tb.And(cond, tb.Not(tb.Eq(v, tb.BV(v.W, val))))
+	}
+	return nil
 }
